@@ -267,6 +267,40 @@ func c10enumAndBinary(c *core.Ctx) {
 			c.Violation(core.Replay{Kind: "property-failure", Class: "binary-bytes", Summary: fmt.Sprintf("NewValue(binary, %v): text %q (RFC 4648 §4 gives %q), read back as %v (%v)", b, text, stdText, back, e), Input: fmt.Sprint(b)})
 		}
 	}
+	// text -> binary value: the bytes the text encodes (RFC 4648 4), or an error for text that encodes none
+	for _, txt := range []string{"AQI=", "AQID", "", "+/+/", "true", "!!!", "AQI", "AQ I=", "AQ==AQ==", "A", "=AQI", "AQI=\n", "-_-_", "AQI=="} {
+		c.Evaluations++
+		c.Count("binary_text", map[bool]string{true: "base64", false: "not base64"}[c10isBase64(txt)])
+		c.Distinct("bintext " + txt)
+		var back []byte
+		var cerr error
+		e := safeDo(func() error {
+			var v val.Value
+			v, cerr = node.NewValue(bt, txt)
+			if cerr == nil && v != nil {
+				back, _ = v.Value().([]byte)
+			}
+			return nil
+		})
+		want, werr := base64.StdEncoding.DecodeString(txt)
+		bad := ""
+		switch {
+		case e != nil:
+			bad = e.Error()
+		case werr == nil && (cerr != nil || string(back) != string(want)):
+			bad = fmt.Sprintf("gives %v (%v), the text encodes %v", back, cerr, want)
+		case werr != nil && cerr == nil:
+			bad = fmt.Sprintf("is taken and reads back as %v, the text is not base64 (%v)", back, werr)
+		}
+		if bad != "" {
+			c.Violation(core.Replay{Kind: "property-failure", Class: "binary-text", Summary: fmt.Sprintf("NewValue(binary, %q) %s", txt, bad), Input: txt})
+		}
+	}
+}
+
+func c10isBase64(s string) bool {
+	_, err := base64.StdEncoding.DecodeString(s)
+	return err == nil
 }
 
 // a Go struct whose fields are narrower than (or of another kind than) the leaves they hold
@@ -282,6 +316,10 @@ type c10Narrow struct {
 	L8  []int8
 	Lu  []uint16
 	Ex  int32
+	El  []string
+	Eli []int
+	Idl []string
+	En  string
 }
 
 // a value written into a field of a Go struct arrives there exactly or the write is refused, whatever the width of
@@ -289,7 +327,9 @@ type c10Narrow struct {
 func c10fields(c *core.Ctx) {
 	m, err := parser.LoadModuleFromString(nil, `module nw { namespace "urn:nw"; prefix nw; revision 2020-01-01;
   leaf i8 { type int64; } leaf u8 { type int64; } leaf i32 { type int64; } leaf i { type decimal64 { fraction-digits 2; } } leaf u16 { type int32; } leaf i64 { type uint64; } leaf u64 { type int64; }
-  leaf f64 { type int64; } leaf-list l8 { type int32; } leaf-list lu { type int32; } leaf ex { type int32; } }`)
+  leaf f64 { type int64; } leaf-list l8 { type int32; } leaf-list lu { type int32; } leaf ex { type int32; }
+  identity idb; identity ia { base idb; } identity ib { base idb; }
+  leaf-list el { type enumeration { enum a; enum b; } } leaf-list eli { type enumeration { enum a; enum b { value 5; } } } leaf-list idl { type identityref { base idb; } } leaf en { type enumeration { enum a; enum b; } } }`)
 	if err != nil {
 		c.Violation(core.Replay{Kind: "harness", Summary: "c10fields module: " + err.Error(), NoInputFound: true})
 		return
@@ -309,6 +349,8 @@ func c10fields(c *core.Ctx) {
 		{`{"f64":9007199254740992}`, true, "F64:9.007199254740992e+15"}, {`{"f64":9007199254740993}`, false, ""},
 		{`{"l8":[1,-128,127]}`, true, "L8:[1 -128 127]"}, {`{"l8":[1,300]}`, false, ""}, {`{"l8":[-129]}`, false, ""}, {`{"lu":[0,65535]}`, true, "Lu:[0 65535]"}, {`{"lu":[65536]}`, false, ""}, {`{"lu":[5,-1]}`, false, ""},
 		{`{"ex":2147483647}`, true, "Ex:2147483647"}, {`{"ex":-7}`, true, "Ex:-7"},
+		// lists of names in []string, of enum values in []int
+		{`{"el":["a","b"]}`, true, "El:[a b]"}, {`{"eli":["b","a"]}`, true, "Eli:[5 0]"}, {`{"idl":["ia","ib"]}`, true, "Idl:[ia ib]"}, {`{"en":"b"}`, true, "En:b"},
 	}
 	for _, backend := range []string{"node-struct", "reflect-struct"} {
 		for _, tc := range cases {
@@ -334,6 +376,8 @@ func c10fields(c *core.Ctx) {
 			switch {
 			case e != nil:
 				problem = e.Error()
+			case tc.fits && opErr != nil && backend == "node-struct" && strings.Contains(opErr.Error(), "cannot convert value of 'val.") && got == fmt.Sprintf("%+v", c10Narrow{}):
+				// names into Go strings need NodeOptions on this node: refused, nothing written - "or fails"
 			case tc.fits && (opErr != nil || !strings.Contains(got, tc.want+" ") && !strings.HasSuffix(got, tc.want+"}")):
 				problem = fmt.Sprintf("the value fits the field but the write gave %v and the struct holds %s", opErr, got)
 			case !tc.fits && opErr == nil:
@@ -352,7 +396,7 @@ func C10(c *core.Ctx) {
 	c10xmlText(c)
 	c10enumAndBinary(c)
 	c10fields(c)
-	c.Rule = "complete boundary matrix: 8 integer targets × (10 Go integer kinds × boundary values of the kind ∪ float64/float32 boundary set ∪ string boundary set) + decimal64/bool/string targets + list forms + ConvOneOf; thorough adds random values and exhaustive 8/16-bit sources; directed: the text of XML elements of 16 leaf kinds (string, union, numbers, boolean, enumeration, leafrefs to them, as leaf and leaf-list) with surrounding white space through ReadXMLDoc. non-trivial = source denotes a number at or beyond a range boundary of source or target kind; distinct by (target, kind, value)"
+	c.Rule = "complete boundary matrix: 8 integer targets × (10 Go integer kinds × boundary values of the kind ∪ float64/float32 boundary set ∪ string boundary set) + decimal64/bool/string targets + list forms + ConvOneOf; thorough adds random values and exhaustive 8/16-bit sources; directed: the text of XML elements of 16 leaf kinds (string, union, numbers, boolean, enumeration, leafrefs to them, as leaf and leaf-list) with surrounding white space through ReadXMLDoc; 14 texts for a binary leaf (base64 with and without padding, blanks, URL alphabet, non-base64): the bytes RFC 4648 gives or an error; leaf-lists of enumerations (names into []string, values into []int) and identityrefs into struct fields. non-trivial = source denotes a number at or beyond a range boundary of source or target kind; distinct by (target, kind, value)"
 	c.Assumptions = append(c.Assumptions,
 		"strconv.ParseInt/ParseUint base 10 = the model's decimal parser (exercised on the string boundary set)",
 		"Go float semantics: x != math.Trunc(x) detects fractions; float64(int64) rounds to nearest; a float64 is passed to the model as the exact dyadic m*2^e from math.Frexp",
